@@ -5,6 +5,12 @@ import json
 BASELINE = "cd /repo && go test -mod=mod -json -vet=off -count=1 -timeout 25m ./..."
 
 CHECKS = {
+ "C17": dict(
+  engine="E3 product enumerator",
+  technique="exhaustive enumeration of SEI message lists over type/size/payload alphabets and of typed-message field products; real write/extract and serialise/decode round trips",
+  text="All lists of <= 2 messages over 12 payload types x ~280 payloads (every string over {00,01,02,03,80,ff} up to length 3 plus emulation/size-coding patterns at sizes around 255 and 510) and lists of 3 over the short payloads are written with WriteSEIMessages and extracted again; TimeCodeSEI with 0-3 clocks where one clock takes every reachable combination of the nested presence flags x time-offset lengths x boundary values at each position, AVC picture timing for pict_struct 0-8 with/without HRD delay lengths {1,24,32}, mastering display / content light level boundary values and the pass-through messages are serialised, decoded and compared (deep equality, Size() == len(Payload())).",
+  note="Message lists are non-empty; three-message lists use the short payloads only. Payload bytes outside the alphabet are covered by C13's closure of the emulation-prevention state machines.",
+  design="3 C17"),
  "C14": dict(
   engine="E3 product enumerator",
   technique="exhaustive enumeration of Annex B streams (every NAL unit size, every start-code length pattern, content classes, all type sequences) against a byte-at-a-time reference scanner and the generating unit list",
